@@ -135,6 +135,10 @@ def cases(tier):
                 for edit in ("subject_to", "set_T", "add_objective", "clear_constraints", "method", "set_initial", "set_initial_T"):
                     out.append(dict(kind="hist", pattern="substage_edit_after_solve", which=which, edit=edit, spec=build(names, [["continuity", 0]], via), dev=list(names) + via + [edit]))
     for names in itertools.product(["A", "B", "G", "D"], repeat=2):
+        for which in (0, 1):
+            for edit in ("set_initial", "set_initial_T", "subject_to"):
+                out.append(dict(kind="hist", pattern="substage_edit_after_query", which=which, edit=edit, spec=build(names, [["continuity", 0]], ["direct", "direct"]), dev=list(names) + ["query", edit]))
+    for names in itertools.product(["A", "B", "G", "D"], repeat=2):
         for via in (["direct", "direct"], ["clone", "clone"], ["direct", "clone"]):
             out.append(dict(kind="hist", pattern="add_stage_after_transcription", spec=build(names, [], via), dev=list(names) + via))
         if "G" in names:
@@ -243,11 +247,16 @@ def run_hist(case):
                     rr.st.set_value(rr.sym["pg"], 1.7)
                     sd["d"].setdefault("pvals", {})["pg"] = 1.7
             multi.add_coupling(m, spec["coupling"])    # a parent-level edit forces a new transcription
-        elif pat == "substage_edit_after_solve":
-            # an edit made on a SUB-stage of a solved multi-stage OCP (no parent-level call in between)
+        elif pat in ("substage_edit_after_solve", "substage_edit_after_query"):
+            # an edit made on a SUB-stage of a solved multi-stage OCP (no parent-level call in between); or after a mere
+            # query on that sub-stage (stage.sample before any solve)
             m = multi.declare_multi(spec)
             m.ocp.solver("ipopt", opts)
-            m.ocp.solve_limited()
+            if pat == "substage_edit_after_query":
+                rq = m.reals[case["which"]]
+                rq.st.sample(rq.sym["x"], grid="control")
+            else:
+                m.ocp.solve_limited()
             rr = m.reals[case["which"]]; sd = final["stages"][case["which"]]
             ed = case["edit"]
             tags = tags + ["edit=%s" % ed]
@@ -369,6 +378,6 @@ def run_case(case):
 
 def describe(tier):
     return dict(
-        rule="(guesses declared on a template: every clone starts from them on its own horizon) (one method instance handed to 2-3 stages) (histories: a stage added directly / from a template after a first solve; an edit {subject_to, set_T, add_objective, clear_constraints, method} on a sub-stage of a solved multi-stage OCP with no parent-level call in between; a sub-stage parameter updated after a solve followed by a parent-level edit; next solve = fresh multi-stage OCP) (mixed methods incl. SplineMethod: every list of length <=3 over {Spline, MS, DC} containing Spline, on integrator-chain stages: multi-stage NLP = concatenation of the stages' own real NLPs + coupling rows) and every stage list of length 1..3 over a 7-stage alphabet (incl. a global parameter whose value each clone receives after cloning) (MS / DC / SS, uniform and geometric grids, N, M, free end time, both times free with a per-interval parameter, explicit time in rhs / integrand / constraints) x coupling pattern (none, state continuity, time+state continuity, shared master variable with master objective, master variable together with a master parameter, master objective on a stage, combination) x declaration pattern (direct; all cloned from templates declared with another horizon; first cloned; clone then edit one clone with siblings from the same template): real multi-stage NLP rows = disjoint union of the stages' reference rows (each read back through stage.sample) + coupling rows, objective = sum of stage objectives + master terms; template's declared state unchanged",
+        rule="(guesses declared on a template: every clone starts from them on its own horizon) (one method instance handed to 2-3 stages) (histories: a stage added directly / from a template after a first solve; an edit {subject_to, set_T, add_objective, clear_constraints, method} on a sub-stage of a solved multi-stage OCP with no parent-level call in between, or after a mere query on that sub-stage before any solve; a sub-stage parameter updated after a solve followed by a parent-level edit; next solve = fresh multi-stage OCP) (mixed methods incl. SplineMethod: every list of length <=3 over {Spline, MS, DC} containing Spline, on integrator-chain stages: multi-stage NLP = concatenation of the stages' own real NLPs + coupling rows) and every stage list of length 1..3 over a 7-stage alphabet (incl. a global parameter whose value each clone receives after cloning) (MS / DC / SS, uniform and geometric grids, N, M, free end time, both times free with a per-interval parameter, explicit time in rhs / integrand / constraints) x coupling pattern (none, state continuity, time+state continuity, shared master variable with master objective, master variable together with a master parameter, master objective on a stage, combination) x declaration pattern (direct; all cloned from templates declared with another horizon; first cloned; clone then edit one clone with siblings from the same template): real multi-stage NLP rows = disjoint union of the stages' reference rows (each read back through stage.sample) + coupling rows, objective = sum of stage objectives + master terms; template's declared state unchanged",
         bound="lists of length <=3%s" % ("" if tier == "thorough" else " (length 3 restricted)"),
         assumptions=["CasADi Function evaluation and Opti bookkeeping are trusted", "generic-point alphabet", "stage.sample is the labelling of a stage's variables"])
